@@ -96,6 +96,8 @@ InSit(c) ==
     [] Sit = "probe1"  -> cl[c].pc = "gc3" /\ Cardinality(cl[c].cands) = 1
     [] Sit = "probe2"  -> cl[c].pc = "gc3" /\ Cardinality(cl[c].cands) >= 2
     [] Sit = "lostcas" -> cl[c].pc = "av4"
+    \* ... lost while latest moved on by two versions: the winner on this parent is not latest
+    [] Sit = "lostcas2" -> cl[c].pc = "av4" /\ \E e \in acked : e[1] = cl[c].parent /\ e[2] # latest
     [] Sit = "orphans" -> cl[c].pc = "clD" /\ cl[c].dels # {}
     [] Sit = "snapdel" -> cl[c].pc = "clX" /\ cl[c].sdel # {}
     [] Sit = "olddel"  -> cl[c].pc = "clX" /\ cl[c].odel # <<>>
